@@ -61,6 +61,12 @@ class C06(Prop):
 
     # ---------------------------------------------------------------- cases
     def cases(self, rng: random.Random, tier: str) -> Iterable[dict]:
+        # whatever the seed: a CONSTRUCTOR rename that sends a parameter onto the name of another one (two parameters answering to one name)
+        # is refused like the same rename through with_inputs()
+        for target in ("fn", "route", "interrupt"):
+            a, b = rng.sample(POOL, 2)
+            yield {"target": target, "orig": [a, b], "defaults": {b: 7}, "ctor": [[a, b]], "ctorInvalid": True, "batches": [], "mapOver": [], "omit": [], "seedvals": 1,
+                   "use_first": False, "use_between": False}
         # whatever the seed: TWIN histories — the same (old, new) pairs applied once as SEQUENTIAL calls on one node and once as ONE parallel
         # batch on another node of the same process (a swap / a shift): what a history means depends on how it was batched
         for target in ("fn", "graph", "fn-out", "interrupt"):
@@ -147,6 +153,14 @@ class C06(Prop):
         from hypergraph.nodes._rename import RenameError
 
         env = Env()
+        if case.get("ctorInvalid"):
+            try:
+                self._node(case, env)
+                return {"ctor": "accepted"}
+            except RenameError:
+                return {"ctor": "RenameError"}
+            except Exception as e:  # noqa: BLE001
+                return {"ctor": "other:" + type(e).__name__}
         node = self._node(case, env)
         is_out = case["target"].endswith("-out")
         accepted = []
@@ -213,6 +227,9 @@ class C06(Prop):
         return dict(zip(case["orig"], cur))
 
     def oracle(self, case: dict, obs: Any) -> str | None:
+        if case.get("ctorInvalid"):
+            return None if obs["ctor"] == "RenameError" else \
+                f"constructor rename {case['ctor']} gives two parameters one name; it was {obs['ctor']} (with_inputs refuses the same rename with RenameError)"
         truth = self._truth(case)
         cur = list(case["orig"])
         if case["ctor"]:
@@ -274,6 +291,8 @@ class C06(Prop):
 
     # ---------------------------------------------------------------- model
     def model(self, case: dict, driver: Any) -> Any:
+        if case.get("ctorInvalid"):
+            return None
         is_out = case["target"].endswith("-out")
         kind = "outputs" if is_out else "inputs"
         acc_batches: list = []
@@ -288,6 +307,8 @@ class C06(Prop):
         return {"accepted": accepted, "current": r["current"], "track": r["track"], "resolve": r["resolve"], "forward": r["outputsForward"], "reverse": r["reverse"]}
 
     def compare(self, case: dict, i: Any, m: Any) -> str | None:
+        if case.get("ctorInvalid"):
+            return None
         if i["accepted"] != m["accepted"]:
             return f"accepted: impl={i['accepted']} model={m['accepted']}"
         names = i["outputs"] if case["target"].endswith("-out") else i["inputs"]
@@ -310,10 +331,14 @@ class C06(Prop):
         return None
 
     def nontrivial(self, case: dict, obs: Any) -> bool:
+        if case.get("ctorInvalid"):
+            return True
         t = self._truth(case)
         return any(o != c for o, c in t.items())
 
     def features(self, case: dict, obs: Any) -> dict:
+        if case.get("ctorInvalid"):
+            return {"target": case["target"], "ctorInvalid": obs["ctor"]}
         return {"target": case["target"], "batches": len(case["batches"]), "rejected": sum(1 for a in obs["accepted"] if a is not True),
                 "ctor": case["ctor"] is not None, "names": len(case["orig"]), "mapOver": bool(case["mapOver"])}
 
